@@ -99,10 +99,13 @@ fn fit_model(case: &L1Case, lasso: bool, y: &[f64], alpha: f64, l1_ratio: f64) -
     let yv = y.to_vec();
     catch(|| {
         if lasso {
-            let m = Lasso::fit(&xm, &yv, LassoParameters::default().with_alpha(alpha).with_tol(case.tol).with_normalize(case.normalize)).map_err(|e| e.to_string())?;
+            // builder calls in two orders (a setter that rebuilds from the defaults would lose earlier settings)
+            let params = if y.len() % 2 == 0 { LassoParameters::default().with_alpha(alpha).with_tol(case.tol).with_normalize(case.normalize) } else { LassoParameters::default().with_normalize(case.normalize).with_tol(case.tol).with_alpha(alpha) };
+            let m = Lasso::fit(&xm, &yv, params).map_err(|e| e.to_string())?;
             Ok(Fit { w: to_mat(m.coefficients()).d, b: m.intercept(), pred: m.predict(&fm).map_err(|e| e.to_string())? })
         } else {
-            let m = ElasticNet::fit(&xm, &yv, ElasticNetParameters::default().with_alpha(alpha).with_l1_ratio(l1_ratio).with_tol(case.tol).with_normalize(case.normalize)).map_err(|e| e.to_string())?;
+            let params = if y.len() % 2 == 0 { ElasticNetParameters::default().with_alpha(alpha).with_l1_ratio(l1_ratio).with_tol(case.tol).with_normalize(case.normalize) } else { ElasticNetParameters::default().with_normalize(case.normalize).with_tol(case.tol).with_l1_ratio(l1_ratio).with_alpha(alpha) };
+            let m = ElasticNet::fit(&xm, &yv, params).map_err(|e| e.to_string())?;
             Ok(Fit { w: to_mat(m.coefficients()).d, b: m.intercept(), pred: m.predict(&fm).map_err(|e| e.to_string())? })
         }
     })
